@@ -13,6 +13,8 @@ import (
 	"mellium.im/xmlstream"
 	"mellium.im/xmpp"
 	"mellium.im/xmpp/jid"
+	"mellium.im/xmpp/mux"
+	"mellium.im/xmpp/receipts"
 	"mellium.im/xmpp/stanza"
 
 	"verifharness/common"
@@ -23,6 +25,8 @@ import (
 //
 //	C06 key <kind><api><role> <attrs> <to> <from> <typ>
 //	    kind  i m p        api  r SendX (token reader)  e SendXElement  n EncodeX  m EncodeXElement
+//	          R  a message sent through receipts.Handler (api r SendMessage, e SendMessageElement); the
+//	             peer answers with a <received/> for the id on the wire
 //	    role  c client stream (jabber:client)   s received server-to-server stream (jabber:server)
 //	    attrs the attribute list with which the start element ENTERS SendIQ / SendMessage /
 //	          SendPresence (read off the real library for the APIs that build it themselves), items
@@ -148,7 +152,10 @@ type keyPayload struct {
 }
 
 // build returns the call and the attribute list with which its start element enters SendX.
-func (k keyCase) build(s *xmpp.Session) (func(ctx context.Context) (xmlstream.TokenReadCloser, error), []string, error) {
+func (k keyCase) build(s *xmpp.Session, rh *receipts.Handler) (func(ctx context.Context) (xmlstream.TokenReadCloser, error), []string, error) {
+	if k.kind == 'R' {
+		return k.buildRcpt(s, rh)
+	}
 	var to jid.JID
 	if k.to != '-' {
 		to = jid.MustParse(keyTo[k.to])
@@ -279,6 +286,52 @@ func (k keyCase) build(s *xmpp.Session) (func(ctx context.Context) (xmlstream.To
 	return call, items, err
 }
 
+// okResponse stands for "the receipt arrived" (receipts calls return only an error).
+type okResponse struct{ id string }
+
+func (o okResponse) Token() (xml.Token, error) {
+	return xml.StartElement{Name: xml.Name{Local: "message"}, Attr: []xml.Attr{{Name: xml.Name{Local: "id"}, Value: o.id}}}, nil
+}
+func (okResponse) Close() error { return nil }
+
+func (k keyCase) buildRcpt(s *xmpp.Session, rh *receipts.Handler) (func(ctx context.Context) (xmlstream.TokenReadCloser, error), []string, error) {
+	to := jid.MustParse("you@example.org/x")
+	if k.to != '-' {
+		to = jid.MustParse(keyTo[k.to])
+	}
+	inner := xml.StartElement{Name: xml.Name{Space: "urn:verif", Local: "q"}}
+	if k.api == 'e' {
+		id := ""
+		for _, it := range k.items {
+			if it == "ui1" {
+				id = "k1"
+			}
+		}
+		msg := stanza.Message{ID: id, To: to, Type: stanza.ChatMessage}
+		var items []string
+		if id != "" {
+			items = []string{"ui1"}
+		}
+		return func(ctx context.Context) (xmlstream.TokenReadCloser, error) {
+			if err := rh.SendMessageElement(ctx, s, xmlstream.Wrap(nil, inner), msg); err != nil {
+				return nil, err
+			}
+			return okResponse{}, nil
+		}, items, nil
+	}
+	st := xml.StartElement{Name: xml.Name{Space: "jabber:client", Local: "message"}}
+	for _, it := range k.items {
+		st.Attr = append(st.Attr, keyAttr('m', it))
+	}
+	st.Attr = append(st.Attr, xml.Attr{Name: xml.Name{Local: "to"}, Value: to.String()})
+	return func(ctx context.Context) (xmlstream.TokenReadCloser, error) {
+		if err := rh.SendMessage(ctx, s, xmlstream.Wrap(xmlstream.Wrap(nil, inner), st.Copy())); err != nil {
+			return nil, err
+		}
+		return okResponse{}, nil
+	}, k.items, nil
+}
+
 // wireStanza waits for one complete top-level element of the given local name in out[from:] and
 // returns its start element.
 func wireStanza(out *common.SafeBuffer, from int, local string) (xml.StartElement, bool) {
@@ -325,20 +378,34 @@ func runKey(r *common.Run, k keyCase, class string) {
 	}
 	handled := make(chan string, 16)
 	served := make(chan error, 1)
-	go func() {
-		served <- rs.S.Serve(handlerFn(func(t xmlstream.TokenReadEncoder, start *xml.StartElement) error {
-			select {
-			case handled <- unqualified(start.Attr, "id"):
-			default:
-			}
-			return nil
-		}))
-	}()
+	note := func(id string) {
+		select {
+		case handled <- id:
+		default:
+		}
+	}
+	var rh *receipts.Handler
+	if k.kind == 'R' {
+		// the "handler" of a receipt nobody waits for is the Unhandled callback
+		rh = &receipts.Handler{Unhandled: note}
+		go func() { served <- rs.S.Serve(mux.New(ns, receipts.Handle(rh))) }()
+	} else {
+		go func() {
+			served <- rs.S.Serve(handlerFn(func(t xmlstream.TokenReadEncoder, start *xml.StartElement) error {
+				note(unqualified(start.Attr, "id"))
+				return nil
+			}))
+		}()
+	}
 	defer func() {
 		rs.In.Close()
 		common.WithTimeout(200*time.Millisecond, func() { rs.S.Close() })
 	}()
-	call, items, err := k.build(rs.S)
+	call, items, err := k.build(rs.S, rh)
+	local1 := kindLocal(k.kind)
+	if k.kind == 'R' {
+		local1 = "message"
+	}
 	if err != nil {
 		r.Notes = append(r.Notes, "key: cannot build the request: "+err.Error())
 		return
@@ -358,7 +425,7 @@ func runKey(r *common.Run, k keyCase, class string) {
 		o.p = common.Recover(func() { o.resp, o.err = call(ctx) })
 		done <- o
 	}()
-	st, onWire := wireStanza(rs.Out, 0, kindLocal(k.kind))
+	st, onWire := wireStanza(rs.Out, 0, local1)
 	var ids []string
 	for _, it := range keyItems(st.Attr) {
 		if it[1] == 'i' {
@@ -380,6 +447,9 @@ func runKey(r *common.Run, k keyCase, class string) {
 			fa = ` from="` + xmlEsc(f) + `"`
 		}
 		reply := fmt.Sprintf(`<%s xmlns="%s" id="%s" type="%s"%s><n xmlns="urn:verif"/></%s>`, kindLocal(k.kind), ns, xmlEsc(wid), typ, fa, kindLocal(k.kind))
+		if k.kind == 'R' {
+			reply = fmt.Sprintf(`<message xmlns="%s"%s><received xmlns="urn:xmpp:receipts" id="%s"/></message>`, ns, fa, xmlEsc(wid))
+		}
 		go rs.Feed([]byte(reply))
 		// the reply reaches the caller or the handler
 		select {
@@ -407,7 +477,7 @@ func runKey(r *common.Run, k keyCase, class string) {
 		out = "reply"
 		tok, _ := got.resp.Token()
 		rst, _ := tok.(xml.StartElement)
-		if unqualified(rst.Attr, "id") != wid || rst.Name.Local != kindLocal(k.kind) {
+		if k.kind != 'R' && (unqualified(rst.Attr, "id") != wid || rst.Name.Local != kindLocal(k.kind)) {
 			r.Fail("own-reply", "wrong-id-or-kind", lines, fmt.Sprintf("the call got <%s id=%q>, the request went out with id %q", rst.Name.Local, unqualified(rst.Attr, "id"), wid))
 		}
 		if p := common.Recover(func() { got.resp.Close() }); p != "" {
@@ -424,13 +494,17 @@ func runKey(r *common.Run, k keyCase, class string) {
 		r.Hist["key-lost"]++
 		r.Fail("own-reply", fmt.Sprintf("reply-with-the-id-on-the-wire-not-delivered:%c", k.kind), lines,
 			fmt.Sprintf("the request went out as <%s id=%q …>, the peer answered with a %s of that id (from=%q): the call ended with %q (%v), handler saw the reply: %v; attributes entering the call: %v, on the wire: %v",
-				kindLocal(k.kind), wid, map[byte]string{'r': "result", 'e': "error"}[k.typ], func() string { f, _ := keyFrom(k.role, k.to, k.from); return f }(), out, got.err, h == 1, items, keyItems(st.Attr)))
+				local1, wid, map[byte]string{'r': "result", 'e': "error"}[k.typ], func() string { f, _ := keyFrom(k.role, k.to, k.from); return f }(), out, got.err, h == 1, items, keyItems(st.Attr)))
 	}
 	if wid == "" && onWire {
 		r.Fail("own-reply", "request-without-id-on-the-wire", lines, "the request went out without an id")
 	}
 	obs := fmt.Sprintf("ids=%s out=%s h=%d", common.Join(ids, ","), out, h)
-	go rs.Feed([]byte(`<message xmlns="` + ns + `" id="sentinel" type="chat"/>`))
+	if k.kind == 'R' {
+		go rs.Feed([]byte(`<message xmlns="` + ns + `"><received xmlns="urn:xmpp:receipts" id="sentinel"/></message>`))
+	} else {
+		go rs.Feed([]byte(`<message xmlns="` + ns + `" id="sentinel" type="chat"/>`))
+	}
 	probe := ""
 	for probe == "" {
 		select {
@@ -541,6 +615,28 @@ func runKeys(r *common.Run) {
 				}
 			}
 		}
+	}
+	// (1r) receipts: both send APIs x id x to x from
+	for _, api := range "re" {
+		for _, idg := range []string{"", "ui1", "ui0"} {
+			if idg == "ui0" && api != 'r' {
+				continue
+			}
+			var items []string
+			if idg != "" {
+				items = []string{idg}
+			}
+			for _, to := range "-fi" {
+				// (no 'g': the multiplexer in front of the receipts handler refuses a message whose
+				// from is no address and Serve returns that error — not a clause of this property)
+				for _, from := range "-suxdb" {
+					run(keyCase{kind: 'R', api: byte(api), role: 'c', items: items, to: byte(to), from: byte(from), typ: 'r'})
+				}
+			}
+		}
+	}
+	for _, l := range keyLists(2) {
+		run(keyCase{kind: 'R', api: 'r', role: 'c', items: l, to: '-', from: '-', typ: 'r'})
 	}
 	// (2) every attribute list
 	for _, l := range keyLists(r.Pick(2, 3)) {
